@@ -25,6 +25,15 @@ CHECKS = {
  "C07": ("drv_seq faults profile + OS shim", "fault enumeration: the k-th mmap/munmap/mprotect/madvise call of a workload fails (once, or persistently until a heal point) in a fresh process per position; shadow-model, crash, post-heal battery and give-back oracles",
          "Clean runs measure the OS calls of 6-8 workload/option setups; then one process per fault position and class (all positions in the thorough tier, a stride sample in the quick tier). "
          "A plan counts as covered only if its fault really fired (INJECTED counter).", "3 C07"),
+ "C02": ("drv_mt xfree scenario + vf_sched", "schedule-controlled execution of real threads (every mi_atomic op / yield / lock a switch point; targeted, uniform and PCT policies; spurious weak-CAS failures), parallel runs with injected delays, ThreadSanitizer; pattern + lifetime-replay oracles",
+         "1200 baton schedules (2-4 threads, 40-300 ops each) on release and debug builds + 12 parallel delay/off runs (4-12 threads, 20-60k ops) + 6 TSan runs per quick run; every block carries a unique-id pattern verified by its current holder; "
+         "all alloc/free events are replayed in timestamp order against an interval map (a block handed out while an intersecting one is live is a violation).", "3 C02"),
+ "C08": ("drv_mt prodcons scenario + vf_sched", "schedule-controlled producer/consumer executions; heap walk at quiescence (no area may remain after one forced collect) and per-round area series (bounded memory)",
+         "One owner heap, 1-7 remotely freeing consumers, <= L outstanding blocks; first remote free into full pages, frees racing the owner's list take-over and collects are hit constantly under the targeted policy.", "3 C08"),
+ "C09": ("drv_mt exit scenario + vf_sched", "schedule-controlled thread termination (natural exit with the destructor running concurrently, or mi_thread_done as a scheduled step) with live blocks handed to survivors and successors adopting abandoned segments; abandoned walk / OS ledger at the end",
+         "T slots x several generations of threads under 5 option settings (reclaim-on-free, forced abandonment, OS segments, reclaim percentage); blocks of terminated threads are read and freed by others; finally nothing abandoned may be left.", "3 C09"),
+ "C14": ("drv_mt arena scenario + vf_sched", "schedule-controlled concurrent multi-block claims in one exclusive arena (targeted at bitmap.c / arena.c), stamps + lifetime replay + range check, capacity probes at quiescence",
+         "Arenas of 96-160 blocks over PROT_NONE address space; claims of 1-7 blocks straddling bitmap fields, failing when full, rolling back, with purges running; afterwards the whole arena and exactly block_count single-block segments must be allocatable.", "3 C14"),
  "C10": ("drv_seq heaps profile (+ drv_mt heap-delete scenario)", "runtime monitor: shadow model with heap attribution, ownership-query cross-check against every heap, conservation after destroy, default-heap checks; concurrent part under the schedule controller",
          "Sequential histories over up to 8 first-class heaps in any order of new/alloc/delete/destroy/set_default with ownership queries on live blocks; blocks of exited threads are adopted meanwhile.", "3 C10"),
  "C11": ("drv_seq ledger profile + OS shim", "OS-ledger monitor (mmap/munmap/mprotect/madvise shim + mincore) over repeated allocate-everything/free-everything rounds",
@@ -40,7 +49,7 @@ CHECKS = {
          "purge_delay in {-1,0,5,10,100} x decommit/reset x arena multiplier x {pages, segments, everything}; violation = more than 35% (65% page scenario) of the freed bytes still committed, or any purge with delay -1, or none with delay 0.", "3 C18"),
 }
 
-NOT_YET = {p: "check under construction in this round (engine drv_mt / arena / arithmetic / override / options drivers); not claimed yet" for p in ("C02", "C08", "C09", "C14", "C15", "C16", "C19", "C20")}
+NOT_YET = {p: "check under construction in this round (engine drv_mt / arena / arithmetic / override / options drivers); not claimed yet" for p in ("C15", "C16", "C19", "C20")}
 
 def main():
     checks = []
